@@ -63,6 +63,25 @@ let handle_fm op args =
      | _ -> failwith "append: need have , paths")
   | _ -> failwith ("known: unknown op " ^ op)
 
-let handle op args = handle_fm op args
+(* ---- Duration / Timestamp helpers (C43) ---- *)
+let handle_time op args =
+  match op, args with
+  | "asdur", [s; n] -> [hex_of_z (DurationModel.as_duration (z_of_hex s) (z_of_hex n))]
+  | "durnew", [d] -> let (s, n) = DurationModel.dur_new (z_of_hex d) in [hex_of_z s; hex_of_z n]
+  | "durcheck", [s; n] -> [hex_of_z (DurationModel.dur_check (z_of_hex s) (z_of_hex n))]
+  | "tsnew", [u; ns] ->
+    let t = { TimestampModel.t_isec = DurationModel.wrap64 (BinInt.Z.add (z_of_hex u) TimestampModel.unix_to_internal);
+              t_nsec = z_of_hex ns } in
+    let (s, n) = TimestampModel.ts_new t in [hex_of_z s; hex_of_z n]
+  | "astime", [s; n] ->
+    let t = TimestampModel.as_time (z_of_hex s) (z_of_hex n) in
+    [hex_of_z (TimestampModel.time_unix t); hex_of_z t.TimestampModel.t_nsec]
+  | "tscheck", [s; n] -> [hex_of_z (TimestampModel.ts_check (z_of_hex s) (z_of_hex n))]
+  | _ -> failwith ("known: unknown op " ^ op)
+
+let handle op args =
+  match op with
+  | "asdur" | "durnew" | "durcheck" | "tsnew" | "astime" | "tscheck" -> handle_time op args
+  | _ -> handle_fm op args
 
 let () = register "known" handle
